@@ -80,6 +80,14 @@ def exprs():
     E.append(("p and q", "bool", lambda r: and3(r["p"], r["q"])))
     E.append(("p or q", "bool", lambda r: or3(r["p"], r["q"])))
     E.append(("not p", "bool", lambda r: not3(r["p"])))
+    # the untyped NULL literal next to a column (the type checker accepts it)
+    E.append(("null and q", "bool", lambda r: and3(None, r["q"])))
+    E.append(("q and null", "bool", lambda r: and3(r["q"], None)))
+    E.append(("null or q", "bool", lambda r: or3(None, r["q"])))
+    E.append(("p or null", "bool", lambda r: or3(r["p"], None)))
+    E.append(("(null and q) or p", "bool", lambda r: or3(and3(None, r["q"]), r["p"])))
+    E.append(("a = null", "bool", lambda r: None))
+    E.append(("a + null", "int", lambda r: None))
     E.append(("p = q", "bool", lambda r: n2(lambda x, y: x == y)(r["p"], r["q"])))
     E.append(("p is null", "bool", lambda r: r["p"] is None))
     E.append(("a > 0 and b > 0", "bool", lambda r: and3(n2(cmp[">"])(r["a"], 0), n2(cmp[">"])(r["b"], 0))))
